@@ -130,7 +130,7 @@ type SigWitness struct {
 
 func batches(tier string) int {
 	if tier == "thorough" {
-		return 160
+		return 320 // ~3 units of 5 executions each: a process must finish inside the mining window of its material
 	}
 	return 16
 }
@@ -173,7 +173,7 @@ type unit struct {
 const nFixed = 4
 
 func units(c *run.Ctx) []unit {
-	nh := c.Pick(44, 120)
+	nh := c.Pick(44, 240)
 	chunks, reps := 1, 3
 	if c.Thorough() {
 		chunks, reps = 4, 5
